@@ -10,6 +10,7 @@ import (
 	"fmt"
 	"go/token"
 	"sort"
+	"strconv"
 	"strings"
 
 	"golang.org/x/tools/go/ssa"
@@ -241,18 +242,13 @@ func checkSearchDir(w *World, r *Report, tm *Terms, fn *ssa.Function, search ssa
 			it := tm.Of(fr, ia.Index)
 			base := tm.Of(fr, ia.X)
 			param := pred.Params[0].Name()
-			switch {
-			case it.Op == "param" && it.Name == param:
-				dir, priceList = "direct", base
-			case it.Op == "binop" && it.Name == "-" && it.Args[1].Op == "param" && it.Args[1].Name == param &&
-				it.Args[0].Op == "binop" && it.Args[0].Name == "-" && it.Args[0].Args[1].Key() == "const<1>" &&
-				it.Args[0].Args[0].Op == "builtin" && it.Args[0].Args[0].Name == "len":
-				dir, priceList = "reversed", base
-			default:
-				// index through a phi (i reassigned): i = (len-1) - i
-				alts := it.Alts()
-				if len(alts) == 1 {
-					continue
+			// the index as a linear form a·i + b·len(list) + c, however it is spelled
+			if a, bl, c, ok := linearIndex(it, param, base); ok {
+				switch {
+				case a == 1 && bl == 0 && c == 0:
+					dir, priceList = "direct", base
+				case a == -1 && bl == 1 && c == -1:
+					dir, priceList = "reversed", base
 				}
 			}
 		}
@@ -281,6 +277,41 @@ func checkSearchDir(w *World, r *Report, tm *Terms, fn *ssa.Function, search ssa
 	r.Check(ok, "SEARCH-DIR", construct+":dir", w.instrPos(search),
 		"the search index maps to ascending prices (so the first true is the lowest qualifying price)",
 		fmt.Sprintf("index mapping is %q over a price list sorted %q: the first index for which the predicate holds is not the lowest price", dir, order))
+}
+
+func uncell(t *Term) *Term {
+	for t.Op == "cell" && len(t.Args) == 1 {
+		t = t.Args[0]
+	}
+	return t
+}
+
+// linearIndex: t = a·param + b·len(list) + c over integer +/- (ok=false for anything else).
+func linearIndex(t *Term, param string, list *Term) (a, b, c int64, ok bool) {
+	switch {
+	case t.Op == "param" && t.Name == param:
+		return 1, 0, 0, true
+	case t.Op == "const":
+		if n, err := strconv.ParseInt(t.Name, 10, 64); err == nil {
+			return 0, 0, n, true
+		}
+	case t.Op == "cell" && len(t.Args) == 1: // a variable captured by the closure: its content
+		return linearIndex(t.Args[0], param, list)
+	case t.Op == "builtin" && t.Name == "len" && len(t.Args) == 1 && uncell(t.Args[0]).Key() == uncell(list).Key():
+		return 0, 1, 0, true
+	case t.Op == "binop" && (t.Name == "+" || t.Name == "-") && len(t.Args) == 2:
+		a1, b1, c1, ok1 := linearIndex(t.Args[0], param, list)
+		a2, b2, c2, ok2 := linearIndex(t.Args[1], param, list)
+		if ok1 && ok2 {
+			if t.Name == "+" {
+				return a1 + a2, b1 + b2, c1 + c2, true
+			}
+			return a1 - a2, b1 - b2, c1 - c2, true
+		}
+	case t.Op == "call" && len(t.Args) == 1 && (strings.HasSuffix(t.Name, "convert") || t.Name == "convert"):
+		return linearIndex(t.Args[0], param, list)
+	}
+	return 0, 0, 0, false
 }
 
 // sortOrderOfDecSlice: fn sorts a []LegacyDec with sort.Slice and a comparator s[i].GT(s[j]) (descending) or LT (ascending).
@@ -460,12 +491,16 @@ func checkSupplyGuard(w *World, r *Report, tm *Terms, tree map[*ssa.Function]boo
 				if _, isCmp := intCmp[callKey(&c.Call)]; !isCmp || len(c.Call.Args) != 2 {
 					continue
 				}
-				if _, isParam := c.Call.Args[1].(*ssa.Parameter); !isParam {
-					continue
-				}
-				if add, ok := c.Call.Args[0].(*ssa.Call); ok && callKey(&add.Call) == mathPath+".Int.Add" && len(add.Call.Args) == 2 && isMatchedAmountLoad(add.Call.Args[0]) {
-					guardQ[add.Call.Args[1]] = true
-					supplyParams[c.Call.Args[1].(*ssa.Parameter)] = true
+				// total.Add(q) compared with the supply parameter, in either operand order
+				for _, o := range [][2]int{{0, 1}, {1, 0}} {
+					sp, isParam := c.Call.Args[o[1]].(*ssa.Parameter)
+					if !isParam {
+						continue
+					}
+					if add, ok := c.Call.Args[o[0]].(*ssa.Call); ok && callKey(&add.Call) == mathPath+".Int.Add" && len(add.Call.Args) == 2 && isMatchedAmountLoad(add.Call.Args[0]) {
+						guardQ[add.Call.Args[1]] = true
+						supplyParams[sp] = true
+					}
 				}
 			}
 		}
@@ -497,8 +532,15 @@ func checkSupplyGuard(w *World, r *Report, tm *Terms, tree map[*ssa.Function]boo
 			construct := fmt.Sprintf("%s:MatchedAmount+=#%d", fnName(fn), i+1)
 			// reachability of the store when every (x ? supply-parameter) comparison says "exceeds"
 			rule := newOrdRule(w, func(*Effect) bool { return false }, ordPair{ord: 1, match: func(x *Explorer, f *Frame, l, rr *Term) int {
-				if rr.Op == "param" && isNamed(rr.V.Type(), mathPath, "Int") && l.Op == "call" && l.Name == mathPath+".Int.Add" {
+				isSup := func(t *Term) bool {
+					return (t.Op == "param" || isSupply(t)) && t.V != nil && isNamed(t.V.Type(), mathPath, "Int")
+				}
+				isSum := func(t *Term) bool { return t.Op == "call" && t.Name == mathPath+".Int.Add" }
+				switch {
+				case isSup(rr) && isSum(l):
 					return 1
+				case isSup(l) && isSum(rr):
+					return -1
 				}
 				return 0
 			}})
